@@ -235,69 +235,79 @@ def mirror_dir(d):
 
 
 def route_table(ctx, b, side):
-    """Partially evaluate the routing loop over self.<side> for every role/direction/break flag."""
-    body = b["body"]
-    loops = [l for l in hq.for_loops(body) if hq.field_path(l[1]) == "self." + side]
-    if len(loops) != 1:
-        raise AnalysisGap("no unique loop over self.%s" % side)
-    _, iterable, pat, lbody = loops[0]
-    var = [p for p in pat_bindings(pat)]
-    if len(var) != 1:
-        raise AnalysisGap("loop pattern is not a single binding")
-    vname, vid = var[0]["name"], var[0]["id"]
-    # map bucket locals to the fields of the assembled task
-    asm = [n for n in hq.nodes(body, "Struct") if hq.last(n["res"].get("adt", "")) == "AssembledExternalEquivalenceTask"]
-    if len(asm) != 1:
-        raise AnalysisGap("AssembledExternalEquivalenceTask literal not found")
-    bucket_of = {}
-    for f in asm[0]["fields"]:
-        lid = local_id_of(f["e"])
-        if lid is not None:
-            bucket_of[lid] = f["name"]
+    """The routing of one formula, decided per (role, direction, break flag): `decompose` is evaluated on a task whose `side` is the singleton
+    list [F] (F an annotated formula with that role and direction), the other side empty; the buckets are read off the assembled task that
+    is built at the end.  Entry: (bucket, role given to the problem formula, is it an element of break_equivalences(F)?)."""
+    from .. import ftpl
+    fx = ctx.facts
+
+    def C(n, **f):
+        return ("ctor", n, tuple(sorted(f.items())))
+    other = "right" if side == "left" else "left"
     table = {}
     for role, d, brk in itertools.product(ROLES + ["Lemma", "Definition", "InductiveLemma"], DIRS, [False, True]):
-        env = {vname + ".role": role, vname + ".direction": d, "self.break_equivalences": brk}
+        F = C("AnnotatedFormula", role=C("Role::" + role), direction=C("Direction::" + d), name=("param", "$n"), formula=("param", "$f"))
+        BR = ("call", "ht::break_equivalences_annotated_formula", (F,))
+        selfv = C("ValidatedExternalEquivalenceTask", user_guide_assumptions=("param", "$uga"), proof_outline=("param", "$po"), decomposition=("param", "$dec"),
+                  direction=("param", "$dir"), break_equivalences=("lit", brk), **{side: ("list", (F,)), other: ("list", ())})
+        ev = sym.Eval(fx, inline_depth=0)
+        ev.unroll_literal_lists = True
+        ev.panics = []
+        v = ev.function(b, [selfv])
         effs = []
+        if any(not c for c, _ in ev.panics) or any(isinstance(x, tuple) and x[:1] == ("panic",) for x in sym.subterms(v)) or (isinstance(v, tuple) and v[:1] == ("panic",)):
+            table[(role, d, brk)] = [("panic", None, False)]
+            continue
+        asm = [x for x in sym.subterms(v) if isinstance(x, tuple) and x[:2] == ("ctor", "AssembledExternalEquivalenceTask")]
+        if len(asm) != 1:
+            raise AnalysisGap("routing of self.%s (%s, %s, break=%s): no single assembled task in the result" % (side, role, d, brk))
+        buckets = {k_: t for k_, t in asm[0][2] if k_.endswith(("_premises", "_conclusions"))}
+        pw = [x for x in sym.subterms(v) if isinstance(x, tuple) and x[:2] == ("call", "WithWarnings::preface_warnings") and len(x[2]) == 2]
+        if pw:
+            buckets["warning"] = pw[0][2][1]
 
-        def on_effect(n, loop, effs=effs):
-            if n.get("k") == "Panic":
-                effs.append(("panic", None, False))
-                return
-            if n.get("k") == "MethodCall" and n["method"] == "push":
-                lid = local_id_of(n["recv"])
-                bucket = bucket_of.get(lid)
-                if bucket is None:
-                    nm = local_of(n["recv"])
-                    bucket = "warning" if nm and "warning" in nm else "?" + str(nm)
-                    effs.append((bucket, None, False))
-                    return
-                ipf = hq.calls(n["args"][0], "AnnotatedFormula::into_problem_formula")
-                prole = None
-                if ipf:
-                    c = hq.const_of(ipf[0]["args"][0])
-                    prole = c[2] if c else None
-                # is the pushed formula the loop variable itself, or an element of break_equivalences(..)?
-                broken = False
-                src = strip(ipf[0]["recv"]) if ipf else None
-                src_id = local_id_of(src) if src is not None else None
-                if src_id != vid:
-                    inner = [l for l in loop if hq.calls(l[0], "break_equivalences_annotated_formula")]
-                    if inner and src_id in {p["id"] for p in pat_bindings(inner[-1][1])}:
-                        arg = hq.calls(inner[-1][0], "break_equivalences_annotated_formula")[0]["args"][0]
-                        broken = local_id_of(arg) == vid
-                    else:
-                        bucket = "?foreign-formula"
-                effs.append((bucket, prole, broken))
-                return
-            if n.get("k") in ("MethodCall", "Call"):
-                effs.append(("?" + hq.render(n)[:40], None, False))
+        def item(x, bucket):
+            if isinstance(x, tuple) and x[:2] == ("call", "AnnotatedFormula::into_problem_formula") and len(x[2]) == 2 and x[2][1][:1] == ("ctor",):
+                prole = x[2][1][1].split("::")[-1]
+                src = x[2][0]
+                if src == F:
+                    return (bucket, prole, False)
+                if src in (("each", BR), ("at", BR)):
+                    return (bucket, prole, True)
+                return ("?foreign-formula", prole, False)
+            if bucket == "warning":
+                return ("warning", None, False)
+            return ("?" + sym.pretty(x)[:40], None, False)
 
-        try:
-            flow.effects(lbody, env, on_effect)
-        except flow.Unknown as e:
-            raise AnalysisGap("routing loop of self.%s: %s" % (side, e))
+        def parse(t, bucket):
+            if not isinstance(t, tuple):
+                return [("?" + repr(t)[:30], None, False)]
+            if t[:1] == ("acc",):
+                return parse(t[1], bucket)
+            if t == ("call", "Vec::new", ()) or t == ("list", ()):
+                return []
+            if t[:1] == ("upd",) and t[2] == "push" and len(t[3]) == 1:
+                return parse(t[1], bucket) + [item(t[3][0], bucket)]
+            if t[:1] == ("upd",) and t[2] in ("extend", "append") and len(t[3]) == 1:
+                y = t[3][0]
+                if isinstance(y, tuple) and y[:1] == ("list",):
+                    return parse(t[1], bucket) + [item(x, bucket) for x in y[1]]
+                cy = ftpl.canon_iter(y)
+                if isinstance(cy, tuple) and cy[:1] == ("upd",) and cy[2] == "push" and leaves_strip(cy[1]) == ("call", "Vec::new", ()):
+                    return parse(t[1], bucket) + [item(cy[3][0], bucket)]
+                return parse(t[1], bucket) + [("?" + sym.pretty(y)[:40], None, False)]
+            if bucket == "stable_premises" and t[:2] == ("call", "Iterator::map"):
+                return []   # the user-guide assumptions (checked separately: route:user-guide)
+            return [("?" + sym.pretty(t)[:40], None, False)]
+        for bucket, t in sorted(buckets.items()):
+            effs += parse(t, bucket)
         table[(role, d, brk)] = effs
     return table
+
+
+def leaves_strip(t):
+    from .. import leaves
+    return leaves.strip_acc(t)
 
 
 def rule_routing(ctx):
